@@ -70,7 +70,7 @@ for m in sorted(glob.glob(os.path.join(V, "seeded", "*", "meta.json"))):
             fhit = [v for v in fr if "VIOLATION with concrete replay" in v]
             fnf = [v for v in fr if "no-failing-input-found" in v]
             FIRST[name] = "caught" if fhit else ("no concrete replay (broken obligation only)" if fnf else "missed by the property's own check")
-    if name == "C18-r3-2":
+    if name == "C18-r3-2" and False:
         FIRST[name] = "not reported — judged not to violate C18 as stated (no key, point or secret value changes)"
         det = "not reported, by design (see integrator_note in meta.json)"
     if name == "C07-2": det = "bin/check C11: VIOLATION with concrete replay, monitor kind not-durable-at-prepare:mc1 (restore after the phase-1 close request)"
